@@ -34,6 +34,12 @@ func runC16(c *Ctx, pr *PropertyRun) {
 	c16Pairs(c, pr, "C16", nil)
 	// a decoded href is handed on as it is
 	urlParseRule(c, pr, "C16", nil)
+	// any tag obtained from the server is accepted back in a conditional
+	// header: the public helper's table (shared with C04.table)
+	cm := NewRule("C16", "C16.conditional-match", "ConditionalMatch.MatchETag is true exactly for * or a quoted string equal to the tag, against an existing resource; a header value is unquoted as one tag, whatever characters the tag holds (E2)")
+	cm.Exhaustive = true
+	pr.Rules = append(pr.Rules, cm)
+	matchETagTable(c, cm, unquoteModel)
 	utcRule(c, pr, "C16")
 	c16Reject(c, pr)
 }
@@ -993,4 +999,38 @@ func statusEncoderShape(c *Ctx, sm *ssa.Function) (bool, string) {
 		return false, "the status encoder could not be interpreted"
 	}
 	return allOK && len(res.Mismatches) == 0, detail
+}
+
+// enumTypedAttributesRule: the wire fields that carry an enumerated attribute
+// (test, match-type, negate-condition) have a type of the module with its own
+// UnmarshalText — the place where values outside the enumeration are refused.
+// A field retyped to a plain (exported) string type decodes anything.
+func enumTypedAttributesRule(c *Ctx, r *RuleResult) {
+	p := c.P
+	enumAttrs := map[string]bool{"test": true, "match-type": true, "negate-condition": true}
+	for _, xs := range p.wireStructs() {
+		for i := range xs.Fields {
+			f := &xs.Fields[i]
+			if !f.Attr || !enumAttrs[f.Local] {
+				continue
+			}
+			r.Role("enumerated-attribute")
+			n := namedOf(f.Type)
+			ok := false
+			if n != nil && inModuleType(n) {
+				for _, t := range []types.Type{n, types.NewPointer(n)} {
+					if sel := p.Prog.MethodSets.MethodSet(t).Lookup(nil, "UnmarshalText"); sel != nil {
+						if fn := p.Prog.MethodValue(sel); fn != nil && p.InModule(fn) {
+							ok = true
+						}
+					}
+				}
+			}
+			r.Ob(ok)
+			if !ok {
+				r.Violation("enum-attr-untyped|"+f.Label, p.Pos(xs.Named.Obj().Pos()), fmt.Sprintf("%s carries the enumerated attribute %q but its type %s has no UnmarshalText of the module: every text is accepted and handed to the backend, where the RFC's decoder must refuse values outside the enumeration (400)", f.Label, f.Local, f.Type.String()), nil)
+			}
+		}
+	}
+	r.RequireRole("enumerated-attribute")
 }
